@@ -108,10 +108,11 @@ def examine_code(s):
         legs = int(m.group(1))
         leg = call(athlib.get_distance, m.group(2) + m.group(3))
         whole = call(athlib.get_distance, s)
-        if leg[0] == 'ret' and leg[1] is not None and whole != ('ret', legs * leg[1]):
+        if leg[0] == 'ret' and leg[1] is not None and leg[1] < 10 ** 12 and whole != ('ret', legs * leg[1]):
             out.append(V('relay-distance', ['relay-distance', shape_tag(s)], case, whole, legs * leg[1]))
         plain = int(m.group(2))
-        if not m.group(3) and whole != ('ret', legs * plain):
+        # distances go through float: exact only below 2**53, so absurdly long digit runs are not asserted
+        if not m.group(3) and plain < 10 ** 12 and whole != ('ret', legs * plain):
             out.append(V('relay-distance', ['relay-distance', 'plain'], case, whole, legs * plain))
     return out
 
